@@ -14,7 +14,7 @@ from __future__ import annotations
 
 import os
 
-from graph import Adapter, Graph, explore, skey
+from graph import Adapter, Graph, explore, plan_walks, run_walks, skey
 from tlc import read_emitted, run_tlc
 
 SCALE = 2.0
@@ -32,6 +32,7 @@ def fixtures():
             1: make_aligned_seqs({"a": "ACGTACGTTGCAACGTRA", "b": "ACGTACATTGCAAC-TGA", "c": "ACCTACGTTGAAATGTGA"}, moltype="dna"),
             2: make_aligned_seqs({"a": "TTGTACGTTGCAACGGGA", "b": "ACGTACATTACAACNTGA", "c": "ACCTATGTTGAAATCTGA"}, moltype="dna"),
         }
+        _cache["aln"][0] = make_aligned_seqs({"a": "MKVLEFWYHQRSTNPDGA", "b": "MKVLEFWYHQRSTNPDGA", "c": "MKVIEFWYHQRSTNPDGA"}, moltype="protein")
         _cache["mp"] = {
             1: {"A": 0.25, "C": 0.25, "G": 0.25, "T": 0.25},
             2: {"A": 0.1, "C": 0.2, "G": 0.3, "T": 0.4},
@@ -88,6 +89,16 @@ class LfAdapter(Adapter):
         elif act == "End":
             ctx.cm.__exit__(None, None, None)
             ctx.cm, ctx.susp = None, False
+        elif act == "SetBadAln":
+            lf.set_alignment(fx["aln"][0])  # postponed: nothing is evaluated yet
+            ctx.aln = 0
+        elif act == "FailedEnd":
+            try:
+                ctx.cm.__exit__(None, None, None)
+                ctx.anom_failed_end = "closing update did not raise for an alignment outside the model's alphabet"
+            except Exception as ex:
+                ctx.last_exc = repr(ex)
+            ctx.cm, ctx.susp = None, False
         elif act == "AbortBlock":
             S, v = args
             lf.set_param_rule("kappa", edges=list(S), is_independent=False, is_constant=False, init=SCALE * v)
@@ -128,7 +139,7 @@ class LfAdapter(Adapter):
             v = float(s.get_default_value()) / SCALE
             val[e] = int(round(v)) if abs(v - round(v)) < 1e-9 else v
         state = {"blk": blk, "const": const, "val": val, "mp": ctx.mp, "aln": ctx.aln, "susp": ctx.susp}
-        if not ctx.susp:
+        if not ctx.susp and ctx.aln != 0:
             # what the user sees: per-edge values, nfp, lnL
             for e in EDGES:
                 got = lf.get_param_value("kappa", edge=e) / SCALE
@@ -158,7 +169,7 @@ class LfAdapterChecked(LfAdapter):
 
     def project(self, ctx):
         state = super().project(ctx)
-        if ctx.susp:
+        if ctx.susp or ctx.aln == 0:
             return state
         lf = ctx.lf
         anomalies = list(state.get("anomalies", []))
@@ -204,8 +215,14 @@ def run_layers(run, scratch):
     ad = LfAdapterChecked()
     ctx = ad.fresh(0)
     init = ad.project(ctx)
-    budget = int(os.environ.get("VERIF_C07_LF_BUDGET", "1500" if run.tier == "quick" else "60000"))
+    budget = int(os.environ.get("VERIF_C07_LF_BUDGET", "900" if run.tier == "quick" else "60000"))
     st = explore(g, init, ad, run, seed=run.seed, budget=budget)
     run.note("layer2_likelihood_function_replay", st)
     run.cov["traces_validated_against_impl"] += st["impl_transitions_checked"]
+    # deep scenarios: walks planned on the spec graph to cover action-name trigrams
+    nw = int(os.environ.get("VERIF_C07_WALKS", "150" if run.tier == "quick" else "1500"))
+    walks = plan_walks(g, init, nw, 9, seed=run.seed)
+    ws = run_walks(g, init, ad, run, walks)
+    run.note("layer2_planned_walks", ws)
+    run.cov["traces_validated_against_impl"] += ws["steps_checked"]
     run.sample({"layer": 2, "initial_state": init})
